@@ -49,6 +49,8 @@ impl Run {
         let data = serde_json::to_vec(self)?;
         file.write_all(&data)?;
         file.sync_all()?;
+        #[cfg(pnordahl_monorail_verif)]
+        crate::verif::point("run_save_before_rename");
         fs::rename(&tmp_path, &self.path)?;
         Ok(())
     }
